@@ -8,11 +8,14 @@ import (
 	ledger "github.com/formancehq/ledger/internal"
 	"github.com/formancehq/ledger/internal/verifhook"
 	"github.com/formancehq/stack/libs/go-libs/logging"
+	"github.com/pkg/errors"
 )
 
 type executionContext struct {
 	commander  *Commander
 	parameters Parameters
+	// logType is the kind of entry this request produces (an idempotency replay must find an entry of that kind)
+	logType ledger.LogType
 }
 
 func (e *executionContext) AppendLog(ctx context.Context, log *ledger.Log) (*ledger.ChainedLog, chan struct{}, error) {
@@ -63,6 +66,11 @@ func (e *executionContext) run(ctx context.Context, executor func(e *executionCo
 		chainedLog, err := e.commander.store.ReadLogWithIdempotencyKey(ctx, ik)
 		verifhook.Yield(ctx, "run.ik.checked")
 		if err == nil {
+			if chainedLog.Type != e.logType {
+				// the key was used by a write of another kind: there is nothing to replay for this request, and reporting
+				// success (or handing the caller an entry of the wrong kind) would acknowledge a write that never happened
+				return nil, errors.Errorf("idempotency key '%s' has already been used by a %s request", ik, chainedLog.Type)
+			}
 			return chainedLog, nil
 		}
 		if err != nil && !storageerrors.IsNotFoundError(err) {
@@ -83,9 +91,10 @@ func (e *executionContext) run(ctx context.Context, executor func(e *executionCo
 	return chainedLog, nil
 }
 
-func newExecutionContext(commander *Commander, parameters Parameters) *executionContext {
+func newExecutionContext(commander *Commander, parameters Parameters, logType ledger.LogType) *executionContext {
 	return &executionContext{
 		commander:  commander,
 		parameters: parameters,
+		logType:    logType,
 	}
 }
